@@ -136,7 +136,15 @@ def build_stream(rng, n_segments, max_noise):
             segs.append(("U", undeliverable_packet(rng)))
         elif r < 0.69:
             p = bytearray(valid_packet(rng, k))
-            p[rng.randrange(10, 20)] ^= rng.randrange(1, 256)
+            how = rng.randrange(4)
+            if how == 0:
+                p[19] ^= rng.randrange(1, 256)            # only the checksum byte is wrong: the payload would decode perfectly
+            elif how == 1 and p[19] != 0:
+                p[19] = 0x00                              # a carried checksum of zero (a line fault that zeroes the tail)
+            elif how == 2:
+                p[rng.randrange(10, 12)] ^= rng.choice([1, 2, 4])      # a small change in the data: still a plausible reading
+            else:
+                p[rng.randrange(10, 20)] ^= rng.randrange(1, 256)
             if b"\xaa\x55" in bytes(p[2:]) or p[-1] == 0xAA:
                 continue
             segs.append(("C", bytes(p)))
